@@ -422,3 +422,69 @@ theorem binaryUint_exact (lr lr' : LR) (n : Nat) (h : binaryUint.run lr = (.ok n
 
 end Aiger
 end Flussab
+
+namespace Flussab
+namespace Aiger
+open PM
+
+/-- The errors of `give_up_at` are the parked I/O error, a syntax error, or the column
+underflow — never the fuel marker. -/
+theorem giveUpAt_not_fuel {α : Type} (p : Nat) (lr lr' : LR) :
+    (giveUpAt p : PM α).run lr ≠ (.error (.panic "fuel"), lr') := by
+  intro h
+  unfold giveUpAt at h
+  simp only [run_bind, run_get, run_set] at h
+  split at h
+  · rw [run_throw] at h; cases h
+  · split at h
+    · rw [run_rpanic] at h
+      have h1 := (Prod.mk.inj h).1
+      injection h1 with h2
+      injection h2 with h3
+      exact absurd h3 (by decide)
+    · rw [run_throw] at h; cases h
+
+theorem giveUp_not_fuel {α : Type} (lr lr' : LR) :
+    (giveUp : PM α).run lr ≠ (.error (.panic "fuel"), lr') := by
+  intro h
+  unfold giveUp at h
+  simp only [run_bind, run_position] at h
+  exact giveUpAt_not_fuel _ _ _ h
+
+theorem unexpected_not_fuel {α : Type} (lr lr' : LR) :
+    (unexpected : PM α).run lr ≠ (.error (.panic "fuel"), lr') := by
+  intro h
+  unfold unexpected at h
+  simp only [run_bind, run_scan, run_get, run_reqAt, run_ite] at h
+  split at h
+  · exact giveUp_not_fuel _ _ h
+  · split at h
+    · exact giveUp_not_fuel _ _ h
+    · exact giveUp_not_fuel _ _ h
+
+/-- The length loop of `binary_uint` never runs out of its fuel (11 at the entry, `n = 0`): the
+test `byte_len == 10` ends it first. -/
+theorem binaryUintLen_no_fuel_panic (fuel n : Nat) (hn : n < 10) (hf : 10 - n < fuel) (lr lr' : LR) :
+    (binaryUintLen fuel n).run lr ≠ (.error (.panic "fuel"), lr') := by
+  induction fuel generalizing n lr with
+  | zero => omega
+  | succ fuel ih =>
+    intro hr
+    unfold binaryUintLen at hr
+    simp only [run_bind, run_reqAt] at hr
+    cases hb : lr.v.rest[n]? with
+    | none =>
+      simp only [hb] at hr
+      exact unexpected_not_fuel _ _ hr
+    | some byte =>
+      simp only [hb] at hr
+      split at hr
+      · rw [run_pure] at hr; cases hr
+      · split at hr
+        · exact giveUp_not_fuel _ _ hr
+        · rename_i h10
+          have : n + 1 ≠ 10 := by simpa using h10
+          exact ih (n + 1) (by omega) (by omega) _ hr
+
+end Aiger
+end Flussab
